@@ -738,3 +738,98 @@ def returned_list_sources(fn, value=None, at=None):
         elif not from_value(v, cs, ()):
             return None
     return out
+
+
+def concat_parts(e):
+    """A sequence expression as the list of what it is put together from, whichever way the concatenation is spelled:
+    `A + (x, y)`, `(*A, x, y)`, `[*A, *B]`, `A + B` -> [("seq", A), ("item", x), ("item", y)] ...  Anything else is one ("seq", e)."""
+    if isinstance(e, ast.BinOp) and isinstance(e.op, ast.Add):
+        return concat_parts(e.left) + concat_parts(e.right)
+    if isinstance(e, (ast.Tuple, ast.List)) and isinstance(getattr(e, "ctx", ast.Load()), ast.Load):
+        return [("seq", x.value) if isinstance(x, ast.Starred) else ("item", x) for x in e.elts]
+    return [("seq", e)]
+
+
+class _Unknown(Exception):
+    pass
+
+
+_FLIP = {ast.Is: ast.IsNot, ast.IsNot: ast.Is, ast.Eq: ast.NotEq, ast.NotEq: ast.Eq, ast.In: ast.NotIn, ast.NotIn: ast.In,
+         ast.Lt: ast.GtE, ast.GtE: ast.Lt, ast.Gt: ast.LtE, ast.LtE: ast.Gt}
+
+
+def truth_of(e, val):
+    """Truth value of the condition e when the atoms (normalised texts) have the truth values `val`; raises _Unknown for anything that is
+    not built from the atoms with not / and / or / bool() / conditional expressions / comparisons spelled either way round."""
+    if isinstance(e, ast.Constant) and isinstance(e.value, bool):
+        return e.value
+    t = norm(e)
+    if t in val:
+        return val[t]
+    if isinstance(e, ast.UnaryOp) and isinstance(e.op, ast.Not):
+        return not truth_of(e.operand, val)
+    if isinstance(e, ast.BoolOp):
+        vs = [truth_of(v, val) for v in e.values]
+        return all(vs) if isinstance(e.op, ast.And) else any(vs)
+    if isinstance(e, ast.Call) and isinstance(e.func, ast.Name) and e.func.id == "bool" and len(e.args) == 1 and not e.keywords:
+        return truth_of(e.args[0], val)
+    if isinstance(e, ast.IfExp):
+        return truth_of(e.body, val) if truth_of(e.test, val) else truth_of(e.orelse, val)
+    if isinstance(e, ast.Compare) and len(e.ops) == 1 and type(e.ops[0]) in _FLIP:
+        flipped = ast.Compare(left=e.left, ops=[_FLIP[type(e.ops[0])]()], comparators=e.comparators)
+        if norm(flipped) in val:
+            return not val[norm(flipped)]
+        if isinstance(e.ops[0], (ast.Eq, ast.NotEq)):
+            sw = ast.Compare(left=e.comparators[0], ops=[type(e.ops[0])()], comparators=[e.left])
+            if norm(sw) in val:
+                return val[norm(sw)]
+            sw = ast.Compare(left=e.comparators[0], ops=[_FLIP[type(e.ops[0])]()], comparators=[e.left])
+            if norm(sw) in val:
+                return not val[norm(sw)]
+    raise _Unknown(t)
+
+
+def truth_table(fn, atoms):
+    """{valuation tuple: True | False | "?"}: what the predicate `fn` (if / elif / else over returns of conditions; once-assigned flags are
+    read through) answers for every truth assignment of the atoms."""
+    import itertools
+    out = {}
+
+    def run(stmts, val, env):
+        for st in stmts:
+            if isinstance(st, ast.Expr) and isinstance(st.value, ast.Constant):
+                continue
+            if isinstance(st, ast.Return):
+                if st.value is None:
+                    raise _Unknown("return None")
+                return truth_of(_through(st.value, env), val)
+            if isinstance(st, ast.If):
+                r = run(st.body if truth_of(_through(st.test, env), val) else st.orelse, val, env)
+                if r is not None:
+                    return r
+                continue
+            if isinstance(st, ast.Assign) and len(st.targets) == 1 and isinstance(st.targets[0], ast.Name):
+                env = dict(env, **{st.targets[0].id: _through(st.value, env)})
+                continue
+            if isinstance(st, ast.Pass):
+                continue
+            raise _Unknown(norm(st)[:40])
+        return None
+
+    def _through(e, env):
+        if not env:
+            return e
+        import copy
+
+        class S(ast.NodeTransformer):
+            def visit_Name(self, n):
+                return copy.deepcopy(env[n.id]) if n.id in env and isinstance(n.ctx, ast.Load) else n
+        return S().visit(copy.deepcopy(e))
+    for bits in itertools.product([False, True], repeat=len(atoms)):
+        val = dict(zip(atoms, bits))
+        try:
+            r = run(fn.body, val, {})
+            out[bits] = "?" if r is None else r
+        except _Unknown:
+            out[bits] = "?"
+    return out
